@@ -75,7 +75,12 @@ impl<'a> PerTypeLookup<'a> {
 			},
 		}
 		let mut per_direct_union_variant = [NoneSomeOrConflict::None; N_VARIANTS];
-		let per_name = std::cell::RefCell::new(HashMap::new());
+		// Precedence of what a name designates, when several variants could be designated
+		// by the same name (lowest takes precedence, the last one if they are equal):
+		const FULLY_QUALIFIED_NAME: u8 = 0;
+		const TYPE_NAME: u8 = 1;
+		const NAME_WITHOUT_NAMESPACE: u8 = 2;
+		let per_name = std::cell::RefCell::new(HashMap::<Cow<'static, str>, (u8, (i64, NodeRef<'a>))>::new());
 		for (discriminant, &schema_node) in variants.iter().enumerate() {
 			let discriminant: i64 = discriminant
 				.try_into()
@@ -121,25 +126,38 @@ impl<'a> PerTypeLookup<'a> {
 					}
 				}
 			};
+			let register_name_with_precedence = |name: Cow<'static, str>, precedence: u8| {
+				match per_name.borrow_mut().entry(name) {
+					std::collections::hash_map::Entry::Occupied(entry)
+						if entry.get().0 < precedence => {}
+					std::collections::hash_map::Entry::Occupied(mut entry) => {
+						entry.insert((precedence, (discriminant, schema_node)));
+					}
+					std::collections::hash_map::Entry::Vacant(entry) => {
+						entry.insert((precedence, (discriminant, schema_node)));
+					}
+				}
+			};
 			let register_name = |name: &Name| {
-				let mut per_name = per_name.borrow_mut();
-				per_name.insert(
-					Cow::Owned(name.name().to_owned()),
-					(discriminant, schema_node),
-				);
-				per_name.insert(
+				// The fully qualified name of a named type is what designates it best (that
+				// is the name that we give for it when deserializing). Its name without the
+				// namespace also designates it, unless that is the name of something else
+				// (e.g. `com.acme.Date` should not prevent from designating a date by `Date`,
+				// but a record that is named `Duration` should still be found by its name
+				// when there's also a duration in the union)
+				if name.name() != name.fully_qualified_name() {
+					register_name_with_precedence(
+						Cow::Owned(name.name().to_owned()),
+						NAME_WITHOUT_NAMESPACE,
+					);
+				}
+				register_name_with_precedence(
 					Cow::Owned(name.fully_qualified_name().to_owned()),
-					(discriminant, schema_node),
+					FULLY_QUALIFIED_NAME,
 				);
 			};
 			let register_type_name = |type_name: &'static str| {
-				// Names of types never take precedence over the names of named types (e.g. a
-				// record that is named `Duration` should still be found by its name when
-				// there's also a duration in the union)
-				per_name
-					.borrow_mut()
-					.entry(Cow::Borrowed(type_name))
-					.or_insert((discriminant, schema_node));
+				register_name_with_precedence(Cow::Borrowed(type_name), TYPE_NAME);
 			};
 			// Note that the following list is very coupled with the serializer:
 			// every `UnionVariantLookupKey` corresponds to one (or more) function
@@ -303,7 +321,13 @@ impl<'a> PerTypeLookup<'a> {
 			NoneSomeOrConflict::Conflict { .. } => None,
 		});
 		PerTypeLookup {
-			per_name: per_name.into_inner(),
+			per_name: per_name
+				.into_inner()
+				.into_iter()
+				.map(|(name, (_precedence, discriminant_and_schema_node))| {
+					(name, discriminant_and_schema_node)
+				})
+				.collect(),
 			per_direct_union_variant,
 		}
 	}
